@@ -983,7 +983,7 @@ LAW(L6_invariant_mixed, RC, 4000, 200000, 170, "the invariant lies inside the su
     size_t K = want.size();
     // the invariant merged with a class of the nested distribution: the bounds get one entry too many and the intervals of
     // the classes above the invariant are shifted (known finding): then only the classes themselves are compared
-    const bool merged = K == nv.size(), boundsOff = merged && c.isKnown("C09-invariant-coincide-bounds");
+    const bool merged = K <= nv.size(), boundsOff = merged && c.isKnown("C09-invariant-coincide-bounds");   // one or several classes share a key (map precision)
     if (merged) c.label("invariant_merged_with_a_class");
     // median-valued nested classes are scaled medians that may leave their intervals (documented scaling): the compound's
     // bounds are built from those values and nested bounds, so its interval structure is only checked for mean-valued classes
